@@ -25,7 +25,8 @@ def ownText (cfg : PartCfg) (x : Xml) : M (Str × Bool) :=
   | some "ENDNOTE_REFERENCE" => (x.attrReq (lit "w") (lit "id")) >>= fun id => pure (lit "----endnote" ++ id ++ lit "----", true)
   | some "IMAGE" => (imageRun cfg x "embed") >>= fun t => pure (t.getD [], true)
   | some "IMAGEDATA" => (imageRun cfg x "id") >>= fun t => pure (t.getD [], true)
-  | some "IMAGE_ALT" => pure (((x.attrGet ⟨none, lit "descr"⟩).map fun d => lit "----Image alt text---->" ++ d ++ ['<']).getD [], true)
+  | some "IMAGE_ALT" => pure (((x.attrGet ⟨none, lit "descr"⟩).map fun d =>
+      lit "----Image alt text---->" ++ (if cfg.html then escapeHtml d else d) ++ ['<']).getD [], true)
   | _ => pure ([], true)
 
 mutual
